@@ -73,6 +73,9 @@ def convert_const(name, T, ctx):
 
 def convert(t, var_names, assms, to_real, ctx):
     """Convert term t to Z3 input."""
+    # Names of variables standing for bound variables of enclosing quantifiers
+    bound_names = set()
+
     def rec(t):
         if t.is_var():
             z3_t = convert_const(t.name, t.T, ctx)
@@ -84,6 +87,7 @@ def convert(t, var_names, assms, to_real, ctx):
             var_names.append(nm)
             v = Var(nm, t.arg.var_T)
             z3_v = convert_const(nm, t.arg.var_T, ctx)
+            bound_names.add(nm)
             body = rec(t.arg.subst_bound(v))
             assms.pop(nm, None)
             if t.arg.var_T == NatType:
@@ -95,6 +99,7 @@ def convert(t, var_names, assms, to_real, ctx):
             var_names.append(nm)
             v = Var(nm, t.arg.var_T)
             z3_v = convert_const(nm, t.arg.var_T, ctx)
+            bound_names.add(nm)
             body = rec(t.arg.subst_bound(v))
             assms.pop(nm, None)
             if t.arg.var_T == NatType:
@@ -105,6 +110,10 @@ def convert(t, var_names, assms, to_real, ctx):
         elif t.is_implies():
             return z3.Implies(rec(t.arg1), rec(t.arg))
         elif t.is_equals():
+            argT = t.arg1.get_type()
+            if argT.is_fun() or (argT.is_tconst() and argT.name == 'set'):
+                # == on Z3 function declarations is a Python comparison, not a formula
+                raise Z3Exception("convert: equality between functions " + repr(t))
             return rec(t.arg1) == rec(t.arg)
         elif t.is_conj():
             return z3.And(rec(t.arg1), rec(t.arg)) if ctx is None else z3.And(rec(t.arg1), rec(t.arg), ctx)
@@ -141,7 +150,8 @@ def convert(t, var_names, assms, to_real, ctx):
             return rec(t.arg1) / rec(t.arg)
         elif t.is_comb('of_nat', 1):
             if t.get_type() == RealType:
-                if t.arg.is_var():
+                if t.arg.is_var() and t.arg.name not in bound_names:
+                    # a free variable: of_nat x is abstracted by a non-negative real
                     if t.arg.name not in to_real:
                         nm = name.get_variant_name("r" + t.arg.name, var_names)
                         var_names.append(nm)
